@@ -90,6 +90,7 @@ fn main() {
     "iota_did" => iota::iota_did(&cex),
     "did_syntax" => did::syntax(&cex),
     "did_probe" => did::probe(&cex),
+    "did_cursor" => did::cursor(&cex),
     "malformed_inputs" => malformed::malformed(&cex),
     "credential_validation" => cred::credential_validation(&cex),
     "presentation_validation" => cred::presentation_validation(&cex),
